@@ -78,6 +78,13 @@ def made_e2e():
     for n in (1, 2, 3):
         out.append([S(1, [[-1, -1]]), {"op": "Lose", "n": n}, C(101, 0), W(200), C(102, 2), Q])
         out.append([S(1, [[101, 0], [101, 1]], min=1), C(101, 0), {"op": "Lose", "n": n}, W(1200), C(101, 1), W(3000), C(101, 0), Q])
+    # events: a burst that needs several messages in one report, events before the subscription (primed), events and
+    # changes mixed, with a datagram lost
+    E = lambda n, size=500: {"op": "Emit", "n": n, "size": size}
+    out.append([S(1, [[101, 0]], events=True), E(6), Q])
+    out.append([E(3, 300), S(1, [[-1, -1]], events=True), E(2), W(500), E(7, 450), C(101, 1), Q])
+    out.append([S(1, [[101, 0]], events=True, min=1), E(1, 10), E(9, 520), W(200), E(9, 520), {"op": "Lose", "n": 1}, E(2, 30), C(101, 0), Q])
+    out.append([S(1, [[101, -1]], events=True), S(2, [[102, -1]]), E(12, 400), C(102, 0), W(1500), E(1, 900), Q])
     # changes spread over several max intervals
     out.append([S(1, [[-1, -1]], max=3), W(50000), C(101, 2), W(50000), C(102, 2), Q])
     return out
